@@ -17,6 +17,9 @@ struct Case {
     /// the colour is selected *before* the history instead of right before the clear ("the colour last
     /// set" must survive whatever the history does, sleep / wake-up included)
     early: bool,
+    /// the history and the clear run on a panel that stays busy for this many polls after every busy-raising
+    /// command and ignores what it receives meanwhile (a clear right behind a refresh must wait it out)
+    busy: Option<u32>,
 }
 
 /// the operations of a case and the colour that was set last in them
@@ -143,9 +146,25 @@ fn visible_diff(spec: &Spec, a: &Ctrl, b: &Ctrl, idx: usize) -> Option<String> {
     None
 }
 
-fn eval(spec: &'static Spec, syms: &[Sym], h: &[usize], color: u32, early: bool, rep: Option<&mut Report>) -> Result<Vec<(String, Vec<String>, String)>, String> {
+fn eval(spec: &'static Spec, syms: &[Sym], h: &[usize], color: u32, early: bool, busy: Option<u32>, rep: Option<&mut Report>) -> Result<Vec<(String, Vec<String>, String)>, String> {
     let (ops, color) = case_ops(syms, h, color, early);
-    let mut rig = Rig::simple(spec);
+    let mut rig = match busy {
+        None => Rig::simple(spec),
+        Some(d) => {
+            let r = Rig::new(
+                spec,
+                |b| {
+                    b.busy_mode = crate::hal::BusyMode::Physical;
+                    b.chips[0].busy.default_d = d;
+                },
+                None,
+                false,
+            )
+            .map_err(|(o, _)| format!("new -> {}", o.short()))?;
+            r.board.borrow_mut().chips[0].drop_while_busy = true;
+            r
+        }
+    };
     let mut twin = Rig::simple(spec);
     for o in &ops {
         let out = rig.apply(o);
@@ -239,14 +258,19 @@ pub fn run(ctx: &Ctx) -> Report {
         let maxlen = if ctx.tier_thorough { if smallp { 3 } else { 2 } } else if bigp { 1 } else { 2 };
         let has_setbg = |h: &[usize]| h.iter().any(|i| syms[*i].iter().any(|o| o.k == K::SetBg));
         for color in 0..spec.color.count() {
-            cases.push(Case { spec, h: vec![], color, early: false });
+            cases.push(Case { spec, h: vec![], color, early: false, busy: None });
             for n in 1..=maxlen {
                 for h in histories(spec, &syms, n) {
-                    cases.push(Case { spec, h: h.clone(), color, early: false });
+                    cases.push(Case { spec, h: h.clone(), color, early: false, busy: None });
+                    if n == 1 {
+                        for d in [3u32, 10_000] {
+                            cases.push(Case { spec, h: h.clone(), color, early: false, busy: Some(d) });
+                        }
+                    }
                     // (a history that selects a colour itself decides the colour of the clear: that is the
                     // other ordering with that colour)
                     if !has_setbg(&h) {
-                        cases.push(Case { spec, h, color, early: true });
+                        cases.push(Case { spec, h, color, early: true, busy: None });
                     }
                 }
             }
@@ -262,7 +286,7 @@ pub fn run(ctx: &Ctx) -> Report {
                 let n = if ctx.tier_thorough { 3 + j % 6 } else { 2 + j % 3 };
                 let h = random_history(spec, &syms, n, &mut rng);
                 let early = j % 2 == 1 && !has_setbg(&h);
-                cases.push(Case { spec, h, color, early });
+                cases.push(Case { spec, h, color, early, busy: None });
             }
         }
     }
@@ -273,13 +297,16 @@ pub fn run(ctx: &Ctx) -> Report {
         rep.eval(spec.name);
         let (mut ops, _) = case_ops(&syms, &c.h, c.color, c.early);
         ops.push(Op::new(K::Clear));
-        match eval(spec, &syms, &c.h, c.color, c.early, Some(rep)) {
+        match eval(spec, &syms, &c.h, c.color, c.early, c.busy, Some(rep)) {
             Err(e) => {
                 rep.count("histories_with_failing_op", 1);
                 rep.note(&format!("history op failed (not judged here): {} {}", spec.name, e));
             }
             Ok(fails) => {
-                rep.nontrivial(hash_str(&format!("{}|{}|{}|{}", spec.name, ops_short(&ops), c.color, c.early)));
+                rep.nontrivial(hash_str(&format!("{}|{}|{}|{}|{:?}", spec.name, ops_short(&ops), c.color, c.early, c.busy)));
+                if c.busy.is_some() {
+                    rep.count("clears_on_busy_command_ignoring_panel", 1);
+                }
                 if c.early {
                     rep.count("colour_selected_before_history", 1);
                 }
@@ -288,17 +315,25 @@ pub fn run(ctx: &Ctx) -> Report {
                 }
                 for (class, tags, detail) in fails {
                     let sig0 = format!("{}|{}", class, tags.join(","));
-                    let min = minimize_history(&c.h, &sig0, &|t: &[usize]| match eval(spec, &syms, t, c.color, c.early, None) {
+                    let min = minimize_history(&c.h, &sig0, &|t: &[usize]| match eval(spec, &syms, t, c.color, c.early, c.busy, None) {
                         Ok(v) => v.iter().map(|(cl, tg, _)| format!("{}|{}", cl, tg.join(","))).find(|s| *s == sig0),
                         _ => None,
                     });
                     let mut tags = tags;
+                    if c.busy.is_some() {
+                        // reported only when the same case on an always-idle panel does not show it
+                        let idle = eval(spec, &syms, &c.h, c.color, c.early, None, None).map(|v| v.iter().any(|(cl, tg, _)| format!("{}|{}", cl, tg.join(",")) == sig0)).unwrap_or(false);
+                        if idle {
+                            continue;
+                        }
+                        tags.push("panel-busy".into());
+                    }
                     if !min.is_empty() {
                         tags.push(format!("hist:{}", sym_kinds(&syms, &min)));
                     }
                     if c.early && !min.is_empty() {
                         // does it need the colour to be selected before the history?
-                        let late = eval(spec, &syms, &min, c.color, false, None).map(|v| v.iter().any(|(cl, tg, _)| format!("{}|{}", cl, tg.join(",")) == sig0)).unwrap_or(false);
+                        let late = eval(spec, &syms, &min, c.color, false, c.busy, None).map(|v| v.iter().any(|(cl, tg, _)| format!("{}|{}", cl, tg.join(",")) == sig0)).unwrap_or(false);
                         if !late {
                             tags.push("bg-set-first".into());
                         }
